@@ -22,6 +22,7 @@
  */
 
 #include "opnmidi_opn2.hpp"
+#include "opnmidi_verif.h"
 #include "opnmidi_private.hpp"
 
 #if defined(OPNMIDI_DISABLE_NUKED_EMULATOR) && defined(OPNMIDI_DISABLE_MAME_EMULATOR) && \
@@ -311,12 +312,14 @@ void OPN2::noteOn(size_t c, double tone)
 
     //Basic range until max of octaves reaching
     while((hertz >= 1023.75) && (octave < 0x3800))
+    VERIF_LOOP(opn2_noteon_octave)
     {
         hertz /= 2.0;    // Calculate octave
         octave += 0x800;
     }
     //Extended range, rely on frequency multiplication increment
     while(hertz >= 2036.75)
+    VERIF_LOOP(opn2_noteon_mul)
     {
         hertz /= 2.0;    // Calculate octave
         mul_offset++;
